@@ -31,6 +31,16 @@ CHECKS["C18"] = dict(technique="differential property-based testing over the (op
                      note="Trusted: the distinct-output call as specification (tied to the reference by C02-C07). __restrict operands are never aliased.",
                      ref="DESIGN.md section 4, C18")
 
+CHECKS["C01"] = dict(technique="property-based testing with an exact-value oracle: from-scratch reference pairing (affine Miller loop, plain final exponent) and known discrete logs, e_lib([a]g1,[b]g2) == GTref^(ab); full reference pairing on a drawn subset",
+                     note="Trusted: Python integers, reference pairing (self-tested for order r and bilinearity without the library; calibrated only through the published generator constant which is itself a checked output).",
+                     ref="DESIGN.md section 4, C01")
+CHECKS["C07"] = dict(technique="property-based testing against reference GT powers; structured random streams that force digit and whole-value rejections (incl. y = r); chi-square uniformity check",
+                     note="Trusted: reference flat Fq12 arithmetic; GT inputs are subgroup members.",
+                     ref="DESIGN.md section 4, C07")
+CHECKS["C08"] = dict(technique="property-based testing over generated pair lists (mixed affine/prepared, identities, duplicates, dirty and re-used arrays) against GTref^(sum a_i b_i)",
+                     note="Trusted: reference pairing / GT powers; single pairing decided by C01.",
+                     ref="DESIGN.md section 4, C08")
+
 PENDING = {}
 
 
